@@ -11,6 +11,9 @@ checks = {
  "C01": (MC, "explicit-state exploration of template programs (fragment-sequence DFS with sound pruning + grammar-shaped product families) executed on the real engine; structure decided by an html5lib-validated WHATWG tokenizer, differential against text/template's rendering and against inert data",
    "All template programs over six fragment alphabets up to depth 4-6 (quick) / 5-7 (thorough), every lexical variant of a one-attribute tag (3.4M programs thorough) and of raw-text end tags are parsed, analysed and executed by the real engine for every control-path assignment; for each accepted program 53 distinguishing payloads per action must leave the token structure and final tokenizer state unchanged, and the inert rendering must have the author's structure without comments.",
    "Trusted: oracle O1 (validated on 7028 html5lib tokenizer cases at setup; cross-checked against x/net/html on 1/8 of outputs, disagreements counted). Payload coverage is by distinguishing payloads; arbitrary bytes are covered compositionally via C10. Bounds as reported in evidence; pruning soundness is asserted at depth<=3.", "DESIGN.md §2 E2, §4 C01"),
+ "C02": (MC, "exhaustive exploration of attribute-template programs (25 elements x 25 attributes x quoting x static prefixes x 14 compositions + link rel sets + helper/call-site programs) on the real engine with every split of 20 dangerous strings over the actions; tokenizer + WHATWG scheme / srcset oracles",
+   "Every program of the structured space is parsed, analysed and executed by the real engine; every successful output is re-tokenized and each marker / URL attribute is judged (code contexts, origin-determining URL start, javascript scheme after character-reference decoding, srcset candidates). Dangerous strings are split at every position over 1-3 dynamic parts.",
+   "Trusted: oracles O1/O2/O3. URL attributes judged are those the property names (href, src, action, formaction, srcset, xlink:href).", "DESIGN.md §4 C02"),
  "C10": (EXPL, "bounded-exhaustive input enumeration (all byte strings to length 2/3, every 21-bit code point value, class alphabet to length 3/5) against a reference coercion and an html5lib-validated WHATWG tokenizer",
    "Every byte string up to the bound, every code point in three contexts and every ill-formed UTF-8 class is run through the real HTMLEscaped and judged by an independent reference (UTF-8 decoder, interchange-valid ranges, tokenizer). Exhaustive within the stated bounds; the function is a per-code-point map, so the bounded space covers its behaviour classes.",
    "Trusted: oracle O6/O1 implementations, Go's html.UnescapeString for the round-trip clause; strings longer than the bounds are assumed to behave as compositions of the covered pieces.", "DESIGN.md §4 C10"),
